@@ -94,7 +94,7 @@ def plan(ctx):
     p1, p2 = fam.prop(1), fam.prop(2)
     special = ['b:La:Lb:MNa', 'LMa:Lb', 'KMaMb:Mc', 'LLMa:LMa:LLb', 'c:Ma:Mb', 'MMa:Ma', 'a:MLa',
                'Hmm:VxHxm', 'SzHzz:SyVxHxy', 'e:LLa:Mb:Mc:Md:Me', 'e:LLa:Mb:Mc:Md', 'Hnm:VxHxm:Gn',
-               'Lc:LKMaLc', 'Mb:LMa:Ma:b']
+               'Lc:LKMaLc', 'Mb:LMa:Ma:b', 'c:LMa:MKLdNd:Me']
     units = []
     for name in names:
         if ctx.quick:
@@ -104,6 +104,8 @@ def plan(ctx):
         else:
             sel = pool + fam.select(p1, 150, ctx.seed, name) + fam.select(p2, 400, ctx.seed, name) \
                 + fam.random_args(ctx.seed, 80) + special
+            from families import boundary
+            sel += boundary.select(name, ctx.seed, want=3, tries=60)
             seeds = [ctx.seed + i for i in range(6)]
         sel = list(dict.fromkeys(sel))
         n = 3 if ctx.quick else 8
